@@ -268,22 +268,22 @@ func init() {
 
 	// dividers: the Lean generator models the long divider (Yao target of
 	// NewUDivider / NewIDivider; NewUDividerLong itself on both targets)
-	yaoOnly := func(c Case) bool { return c.Target == 0 }
 	b = reg(divBuilder("udiv", circuits.NewUDivider, false, 0, nzDivWide))
-	b.TargetDep, b.Modelled, b.ModelledFor = true, true, yaoOnly
+	b.TargetDep, b.Modelled = true, true
 	b = reg(divBuilder("umod", circuits.NewUDivider, false, 1, nzDivWide))
-	b.TargetDep, b.Modelled, b.ModelledFor = true, true, yaoOnly
+	b.TargetDep, b.Modelled = true, true
 	b = reg(divBuilder("udivmod", circuits.NewUDivider, false, 2, nzDiv))
-	b.TargetDep, b.Modelled, b.ModelledFor = true, true, yaoOnly
+	b.TargetDep, b.Modelled = true, true
 	b = reg(divBuilder("idiv", circuits.NewIDivider, true, 0, nzDivWide))
-	b.TargetDep, b.Modelled, b.ModelledFor = true, true, yaoOnly
+	b.TargetDep, b.Modelled = true, true
 	b = reg(divBuilder("imod", circuits.NewIDivider, true, 1, nzDivWide))
-	b.TargetDep, b.Modelled, b.ModelledFor = true, true, yaoOnly
+	b.TargetDep, b.Modelled = true, true
 	b = reg(divBuilder("udivlong", circuits.NewUDividerLong, false, 2, nzDivWide))
 	b.Modelled = true
 	reg(divBuilder("udivrestoring", circuits.NewUDividerRestoring, false, 2, nzDiv))
 	reg(divBuilder("udivarray", circuits.NewUDividerArray, false, 2, nzDiv))
-	reg(divBuilder("udivgold", circuits.NewUDividerGoldschmidtFast, false, 2, nzDiv))
+	b = reg(divBuilder("udivgold", circuits.NewUDividerGoldschmidtFast, false, 2, nzDiv))
+	b.Modelled = true
 
 	// comparators
 	cmpU := func(name string, f build2, p func(int) bool) {
